@@ -7,7 +7,7 @@
    alpha_star, the early return, and that the result is in the box under exact comparisons.
    The minimisation / descent clauses are statements about real numbers: they are proved on the exact-rational model (C09.v). *)
 From Coq Require Import List Bool Arith Sorted Floats.PrimFloat.
-From LBFGSB Require Generated.Base.
+From LBFGSB Require Generated.FreeSet.
 From LBFGSB Require Import Base.FloatOrd Model.FloatVec Model.FCauchy Model.FSubspace Proofs.DriverBox Proofs.FSubspaceProofs.
 Import ListNotations.
 
@@ -112,9 +112,9 @@ Proof. exact nan_from_finite_inputs. Qed.
 (* the free set of the model IS the mask of subspacemin.get_freev, translated from its NumPy source on every run:
    ((x_cp != ub) & (x_cp != lb)) element-wise, for arrays of equal length *)
 Theorem C09f_free_mask_from_source : forall xc lb ub : vec, length lb = length xc -> length ub = length xc ->
-  LBFGSB.Generated.Base.free_mask xc lb ub = ffree xc lb ub.
+  LBFGSB.Generated.FreeSet.free_mask xc lb ub = ffree xc lb ub.
 Proof.
-  unfold LBFGSB.Generated.Base.free_mask. induction xc as [|x xc IH]; intros lb ub Hl Hu; destruct lb as [|l lb]; destruct ub as [|u ub]; try discriminate; [reflexivity|].
+  unfold LBFGSB.Generated.FreeSet.free_mask. induction xc as [|x xc IH]; intros lb ub Hl Hu; destruct lb as [|l lb]; destruct ub as [|u ub]; try discriminate; [reflexivity|].
   cbn. unfold is_free. f_equal. apply IH; [injection Hl|injection Hu]; auto.
 Qed.
 
